@@ -190,6 +190,10 @@ class C20(Family):
                                      "CtrlVerif.Props.C20GenFlatMat", "CtrlVerif.Props.C20GenFlatP2P",
                                      "CtrlVerif.Props.C20GenFlatEval", "CtrlVerif.Props.C20GenFlat"]
     # <<< C20-flat
+    # >>> C20-p2phead (source-text tie of the argument processing at the head of point_to_point /
+    # solve_flat_optimal: notes/NOTES-py2lean-p2phead.md)
+    extra_modules = extra_modules + ["CtrlVerif.Props.C20GenHead", "CtrlVerif.Props.C20GenHeadKw"]
+    # <<< C20-p2phead
 
     def pre_build(self):
         import os
@@ -203,6 +207,12 @@ class C20(Family):
         problems = list(problems) + list(problems_flat)
         self.gen_info = dict(self.gen_info or {}, **gen_info_flat)
         # <<< C20-flat
+        # >>> C20-p2phead
+        from core import py2lean_p2phead
+        problems_head, gen_info_head = py2lean_p2phead.regenerate(repo, leanproj.LEAN)
+        problems = list(problems) + list(problems_head)
+        self.gen_info = dict(self.gen_info or {}, **gen_info_head)
+        # <<< C20-p2phead
         return problems
     externals = ["numpy.linalg.lstsq (minimum-norm solution; the model computes M^T (M M^T)^-1 Z by a "
                  "certified exact solve, agreement is part of the correspondence)",
